@@ -184,7 +184,11 @@ def print_assumptions(module, theorems):
             cur = line[6:].strip()
             res[cur] = []
         elif cur is not None:
-            m = re.match(r"^([A-Za-z_][\w.']*)\s*:", line)
+            # `Axioms:` is the header; each axiom is an unindented `name : type` or a bare `name`
+            # whose type follows on the next (indented) line
+            if line.strip() in ("Axioms:", "Closed under the global context", ""):
+                continue
+            m = re.match(r"^([A-Za-z_][\w.']*)\s*(:|$)", line)
             if m and not line.startswith(" "):
                 res[cur].append(m.group(1))
     return res, out
@@ -234,7 +238,8 @@ def coq_string(s):
     return '"' + s.replace('"', '""') + '"'
 
 
-MISMATCH_RE = re.compile(r'\((\d+)%N,\s*"((?:[^"]|"")*)"\)', re.S)
+MISMATCH_RE = re.compile(r'\((\d+)(?:%N)?,\s*"((?:[^"]|"")*)"\)', re.S)
+SENTINEL = ('"@@sentinel-model"', "@@sentinel-impl")
 
 
 def coq_mismatches(imports, items, tag, shard_size=400, timeout=900, prelude=""):
@@ -254,7 +259,8 @@ def coq_mismatches(imports, items, tag, shard_size=400, timeout=900, prelude="")
             f.write(prelude + "\n")
             f.write("Open Scope string_scope.\n")
             f.write("Definition cs : list (string * string) := [\n")
-            f.write(";\n".join("(%s, %s)" % (t, coq_string(s)) for t, s in shards[k]))
+            # entry 0 is a sentinel that MUST be reported as a mismatch: guards the output parser
+            f.write(";\n".join("(%s, %s)" % (t, coq_string(s)) for t, s in [SENTINEL] + list(shards[k])))
             f.write("\n]%list.\nEval vm_compute in mismatches cs.\n")
         rc, out = sh(["coqc", "-noglob", "-Q", os.path.join(COQ, "theories"), "NV", path],
                      cwd=WORK, timeout=timeout)
@@ -267,8 +273,15 @@ def coq_mismatches(imports, items, tag, shard_size=400, timeout=900, prelude="")
             raise Broken("coqc failed on %s:\n%s" % (path, out[-3000:]))
         os.remove(path)
         res = {}
+        seen_sentinel = False
         for m in MISMATCH_RE.finditer(out):
-            res[k * shard_size + int(m.group(1))] = m.group(2).replace('""', '"')
+            i = int(m.group(1))
+            if i == 0:
+                seen_sentinel = True
+                continue
+            res[k * shard_size + i - 1] = m.group(2).replace('""', '"')
+        if not seen_sentinel:
+            raise Broken("coqc output of %s not understood (sentinel mismatch missing):\n%s" % (stem, out[-1500:]))
         return res
 
     bad = {}
